@@ -236,6 +236,8 @@ class Portfolio(IncrementalTrackingSolver):
         if self._ext_solver and self._ext_solver.is_alive():
             self._ext_solver.terminate()
             _debug("Previous solver killed")
+        # No solver to ask for models until the next successful solve
+        self._ext_solver = None
 
     def _exit(self):
         self._close_existing()
